@@ -260,6 +260,8 @@ def run_group_uncached(g, tier, root_wd, keep=False):
         res["solver_s"] = round(secs, 2)
         if rc == -9:
             raise GroupError("cbmc timed out after %ds (undecided)" % to)
+        if "SAT checker ran out of memory" in out or "std::bad_alloc" in out:
+            raise GroupError("cbmc ran out of memory (limit %d GB): undecided" % g.get("mem_gb", 12))
         results, msgs = parse_cbmc(out)
         if results is None or (not results and rc not in (0, 10)):
             raise GroupError("cbmc produced no result (rc=%s):\n%s" % (rc, "\n".join(msgs)[-3000:]))
